@@ -6,7 +6,7 @@ Require Import ExtrOcamlBasic.
 Import ListNotations.
 Local Open Scope Z_scope.
 
-Definition arith_of (a : Z) : arith := if a =? 0 then Exact else LongDouble.
+Definition arith_of (a : Z) : arith := if a =? 0 then Exact else if a =? 1 then LongDouble else U64Wrap.
 
 Definition flat_pairs (l : list (Z * Z)) : list Z := flat_map (fun p => [fst p; snd p]) l.
 
